@@ -150,7 +150,12 @@ class C20(Prop):
         fdirs = [rng.choice([[]] + all_dirs) for _ in range(n)]
         if shape == "chain" and rng.chance(1, 2):
             fdirs = [[] for _ in range(n)]
-        fpaths = [fdirs[i] + ["f%d.yar" % i] for i in range(n)]
+        # file names: usually plain; in one case out of five with characters that a string-literal parser would
+        # rewrite (backslash sequences) or that are unusual in names — a directive is raw text up to the quote
+        odd = ["f%d\\new.yar", "a\\tb%d.yar", "x\\\\y%d.yar", "q\\x41_%d.yar", "k\\z%d.yar", "sp ace%d.yar", "d$%d#.yar",
+               "p%%d%d.yar", "t'%d`.yar"]
+        oddnames = rng.chance(1, 5)
+        fpaths = [fdirs[i] + [(rng.choice(odd) if oddnames and rng.chance(2, 3) else "f%d.yar") % i] for i in range(n)]
         edges = {i: [] for i in range(n)}
         if shape in ("tree", "dag", "defect"):
             for j in range(1, n):
@@ -203,7 +208,7 @@ class C20(Prop):
                         imported.add(v)
                 elif kind == "inc":
                     if mode == "callback" and rng.chance(1, 3):
-                        cs.append({"inc": "cbname%d" % v, "_to": v})
+                        cs.append({"inc": ("win\\tools\\leaf%d.yar" if oddnames else "cbname%d") % v, "_to": v})
                     else:
                         cs.append({"inc": self.rel_text(rng, fdirs[i], fpaths[v], all_dirs,
                                                         9 if plain_paths else None), "_to": v})
@@ -421,7 +426,26 @@ class C20(Prop):
         return {"mode": mode, "shape": "globals", "cwd": [], "dirs": [], "files": files, "cb": cb, "calls": calls,
                 "scan": " ".join(present), "use_cb": mode == "callback"}
 
+    SETTERS = ["parse_expression_recursion_limit", "parse_string_recursion_limit", "max_condition_depth",
+               "fail_on_warnings", "compute_statistics", "max_strings_per_rule", "disable_unknown_escape_warning"]
+
+    def with_param_order(self, rng, case):
+        """the compiler parameters are set through the builder methods in a random order (default values):
+        disable_includes(true) must refuse every directive wherever it stands in the sequence, and a graph compiled
+        with includes enabled must not be affected by the other setters"""
+        if rng.chance(1, 4):
+            return case                        # the historical way: only disable_includes when disabled
+        k = rng.range(1, len(self.SETTERS))
+        order = rng.shuffle(self.SETTERS)[:k]
+        if case["mode"] == "disabled" or rng.chance(1, 2):
+            order.insert(rng.below(len(order) + 1), "disable_includes")
+        case["param_order"] = order
+        return case
+
     def generate(self, ctx, rng, n):
+        return [self.with_param_order(rng.fork("p%d" % i), c) for i, c in enumerate(self.generate0(ctx, rng, n))]
+
+    def generate0(self, ctx, rng, n):
         out = []
         for i in range(n):
             r = rng.fork("c%d" % i)
@@ -562,6 +586,7 @@ class C20(Prop):
                    "cur": None if e["cur"] is None else e["cur"].replace(ROOT, root), "ns": e["ns"],
                    "text": None if e["doc"] is None else render_doc(e["doc"], root)} for e in c["cb"]]
             hc.append({"chdir": os.path.join(root, *c["cwd"]), "mode": c["mode"], "cb": cb, "calls": calls,
+                       "param_order": c.get("param_order"),
                        "use_cb": self.uses_cb(c),
                        "inline_calls": [{"text": t, "ns": k["ns"]} for (t, _, _), k in zip(exp, c["calls"])],
                        "scan_hex": c["scan"].encode().hex(), "wall_s": 30})
